@@ -17,10 +17,10 @@ ARG_OPS = ('r', 'rL', 'sk', 'sc', 'se')
 #   tp = f.pos, gb = f.buf, lp = f.len (property, not len(f)), fn = f.fileno() (rolls over first), rm = f.read(-1)
 ALIAS = {'tp': 't', 'gb': 'g', 'lp': 'l', 'fn': 'ro', 'rm': 'ra',
          # round 5: every argument form the methods accept (the io reference is always called positionally)
-         #   ln = f.__len__(), nx = f.next(), nd = f.__next__(), rln = readline(None), rlk = readline(length=None),
+         #   ln = f.__len__(), nd = f.__next__(), rln = readline(None), rlk = readline(length=None),
          #   rs0 = readlines(0), rsk = readlines(sizehint=0), rsm = readlines(-1), rsn = readlines(None),
          #   rak = read(n=-1), rn = read(None) (SpooledBytesIO only), itr = list(iter(f)) / list(f.__iter__())
-         'ln': 'l', 'nx': 'n', 'nd': 'n', 'rln': 'rl', 'rlk': 'rl', 'rs0': 'rs', 'rsk': 'rs', 'rsm': 'rs', 'rsn': 'rs',
+         'ln': 'l', 'nd': 'n', 'rln': 'rl', 'rlk': 'rl', 'rs0': 'rs', 'rsk': 'rs', 'rsm': 'rs', 'rsn': 'rs',
          'rak': 'ra', 'rn': 'ra', 'itr': 'it'}
 # spellings of the ops that carry a number: rk = read(n=k), sk0 = seek(p, 0), skk = seek(pos=p, mode=os.SEEK_SET),
 # sck = seek(pos=n, mode=os.SEEK_CUR), rLk = readline(length=n) (bytes)
@@ -34,7 +34,7 @@ ARG_ALIAS = {'rk': 'r', 'sk0': 'sk', 'skk': 'sk', 'sck': 'sc', 'rLk': 'rL'}
 #   ['q', name]       a harmless query / no-op of the file API (flush, isatty, seekable, ..., iter(f), f.__enter__(),
 #                     bool(f), f.closed): nothing may move
 SPECIAL = ('x', 'o', 'q')
-Q_NAMES = ('flush', 'isatty', 'seekable', 'readable', 'writable', 'closed', 'bool', 'iter', 'enter', 'rolled', 'softspace')
+Q_NAMES = ('flush', 'isatty', 'seekable', 'readable', 'writable', 'closed', 'bool', 'iter', 'enter', 'softspace')
 WL_FORMS = ('list', 'gen', 'iter', 'tuple')
 # code points on the edges of the 1 / 2 / 3 / 4 byte classes of UTF-8 (and around the surrogate gap, BOM)
 UTF8_EDGES = ['\x7f', '\x80', '\u07ff', '\u0800', '\ud7ff', '\ue000', '\ufeff', '\uffff', '\U00010000', '\U0010ffff']
@@ -95,8 +95,6 @@ def q_call(f, name):
         return iter(f)
     if name == 'enter':
         return f.__enter__()
-    if name == 'rolled':
-        return f._rolled
     if name == 'softspace':
         return getattr(f, 'softspace', None)
     return getattr(f, name)()
@@ -178,9 +176,9 @@ def apply_op(f, op, kind, is_ref):
         return apply_op(f, [ARG_ALIAS[name]] + list(op[1:]), kind, True)
     if name == 'ln':
         return f.__len__()
-    if name == 'nx' or name == 'nd':
+    if name == 'nd':
         try:
-            return f.next() if name == 'nx' else f.__next__()
+            return f.__next__()
         except StopIteration:
             return StopIteration
     if name == 'rln':
@@ -371,13 +369,15 @@ M_READ_ALIAS = {'rk': 'r', 'rn': 'ra'}      # read(amt=n), read(None)
 M_SEEK_OPS = ('s', 'sw', 'skk')            # seek(0), seek(0, os.SEEK_SET), seek(offset=0, whence=os.SEEK_SET)
 
 
-def mfr_expected(case):
+def mfr_expected(case, from_start=False):
     """plain restatement: one string, one cursor.  Members handed over at a position other than 0 (just written; a
-    header already read): the first pass delivers what each member still had to deliver, in order; seek(0) rewinds
-    every member, so after it the reader delivers the whole contents"""
+    header already read): the first pass delivers what each member still had to deliver, in order (the code's reading,
+    and the model's; `from_start`: the other reading the statement allows - a reader that rewinds its members when it is
+    built delivers the whole contents at once); seek(0) rewinds every member, so after it the reader delivers the whole
+    contents under either reading"""
     text = mfr_text(case)
     parts = case['files'] if text else [bytes.fromhex(p) for p in case['files']]
-    whole = ('' if text else b'').join(p[a:] for p, a in zip(parts, mfr_at(case)))
+    whole = ('' if text else b'').join(p[0 if from_start else a:] for p, a in zip(parts, mfr_at(case)))
     pos = 0
     out = []
     for op in case['ops']:
@@ -488,8 +488,8 @@ class C18(Property):
             'read / seek(0) mixes, its rejected calls (seek(1), seek(0, SEEK_CUR), read("a")) between reads and every argument '
             'form (read(amt=n), read(None), seek(0, os.SEEK_SET), seek(offset=0, whence=0)); "spelling" = every argument form of '
             'the spooled methods (read(n=k), seek(p, 0), seek(pos=, mode=), readline(None / length=), readlines(0 / -1 / None / '
-            'sizehint=0), f.__len__(), f.next(), f.__next__(), iter(f), the four constructor forms) and the harmless queries '
-            '(flush, isatty, seekable, readable, writable, closed, bool, iter, __enter__, _rolled, softspace); "sibling" = writes, '
+            'sizehint=0), f.__len__(), f.__next__(), iter(f), the four constructor forms) and the harmless queries '
+            '(flush, isatty, seekable, readable, writable, closed, bool, iter, __enter__, softspace); "sibling" = writes, '
             'reads, rollover, rejected calls, close() and calls after close() on ANOTHER live instance between the steps of the '
             'judged one; every list returned (readlines, list(f), loop) is spoiled by the caller; 30 % of the random '
             'histories carry such calls; max_size also exactly the number of bytes written. '
@@ -516,7 +516,7 @@ class C18(Property):
                    'members\' UNREAD parts in order, seek(0) rewinds every member and from then on the whole contents are '
                    'delivered (Lean: mfr_offset_first_pass, mfr_offset_seek0_restarts)',
                    'round 5: another live instance of the class and the harmless queries of the file API (flush, isatty, '
-                   'seekable, readable, writable, closed, bool(f), iter(f), f.__enter__(), f._rolled, softspace) are no events '
+                   'seekable, readable, writable, closed, bool(f), iter(f), f.__enter__(), softspace) are no events '
                    'of the reference or the model: nothing may move; keyword / dunder / explicit-default spellings are the same '
                    'model operation as the plain call',
                    'readlines(sizehint > 0) and readline(0) are outside the statement (CPython\'s BytesIO and BufferedRandom '
@@ -661,7 +661,7 @@ class C18(Property):
         forms) and the harmless queries of the file API, each after a seek into the data and followed by a read"""
         for kind, c in (('B', b'a\xc3\xa9\nbc\r\nd'), ('S', 'a\xe9\nb\u65e5\r\nc')):
             enc = (lambda b: b.hex()) if kind == 'B' else (lambda t: t)
-            alpha = [['ln'], ['nx'], ['nd'], ['rln'], ['rlk'], ['rs0'], ['rsk'], ['rsm'], ['rsn'], ['rak'], ['itr'],
+            alpha = [['ln'], ['nd'], ['rln'], ['rlk'], ['rs0'], ['rsk'], ['rsm'], ['rsn'], ['rak'], ['itr'],
                      ['itr', 1], ['rk', 2], ['sk0', 3], ['skk', 1], ['sck', 1]] + [['q', q] for q in Q_NAMES]
             if kind == 'B':
                 alpha += [['rn'], ['rLk', 2]]
@@ -979,7 +979,7 @@ class C18(Property):
                 op = [o]
             # round 5: another spelling of the same call
             if spice and rng.random() < 0.25:
-                alt = {'r': ['rk'], 'sk': ['sk0', 'skk'], 'sc': ['sck'], 'rL': ['rLk'], 'l': ['ln'], 'n': ['nx', 'nd'],
+                alt = {'r': ['rk'], 'sk': ['sk0', 'skk'], 'sc': ['sck'], 'rL': ['rLk'], 'l': ['ln'], 'n': ['nd'],
                        'rl': ['rln', 'rlk'], 'rs': ['rs0', 'rsk', 'rsm', 'rsn'], 'ra': ['rak'] + ([] if text else ['rn']),
                        'it': ['itr']}.get(op[0])
                 if alt:
@@ -1113,7 +1113,16 @@ class C18(Property):
         return case
 
     # ------------------------------------------------------------------ model line
+    def has_x(self, case):
+        return any(op[0] == 'x' or (op[0] == 'o' and op[1][0] == 'x') for op in case['ops'])
+
     def line(self, case):
+        if case['k'] != 'F' and self.has_x(case):
+            k = self.key(case)
+            if k not in getattr(self, '_ran_x', ()):
+                self.impl(case)     # (the runner's shrinker asks for the line first) did the implementation accept it?
+            if k in getattr(self, '_accepted', ()):
+                return None         # a call generated as rejected was ACCEPTED: outside the model's domain
         if case['k'] == 'M':
             files = [hx(p.encode('utf-8')) for p in case['files']] if case['text'] else [p or '-' for p in case['files']]
             toks = ['M', 't' if mfr_text(case) else 'b', str(len(files))] + files
@@ -1135,8 +1144,6 @@ class C18(Property):
             toks = [case['k'], str(case['ms'])]
         if case['k'] == 'S':
             toks.append('R' if case.get('chunk') is None else str(case['chunk']))
-        if case['k'] != 'F' and self.key(case) in getattr(self, '_accepted', ()):
-            return None         # the implementation ACCEPTED a call generated as rejected: outside the model's domain
         for op in case['ops']:
             if op[0] == 'w':
                 toks.append('w' + (hx(op[1].encode('utf-8')) if text else (op[1] or '-')))
@@ -1172,6 +1179,11 @@ class C18(Property):
     def impl(self, case):
         import boltons.ioutils as iu
         self.stats[case['k']] = self.stats.get(case['k'], 0) + 1
+        if case['k'] != 'F' and self.has_x(case):
+            if not hasattr(self, '_ran_x'):
+                self._ran_x = set()
+                self._accepted = set()
+            self._ran_x.add(self.key(case))
         if case['k'] == 'M':
             return self.impl_mfr(case, iu)
         if case['k'] == 'F':
@@ -1221,8 +1233,6 @@ class C18(Property):
                             continue
                         # the call was accepted: the case leaves the domain here (not judged, not sent to the model)
                         out.append({'acc': 1})
-                        if not hasattr(self, '_accepted'):
-                            self._accepted = set()
                         self._accepted.add(self.key(case))
                         self.stats['x_accepted'] = self.stats.get('x_accepted', 0) + 1
                         break
@@ -1333,8 +1343,6 @@ class C18(Property):
                             out.append({'r': ['N'], 'skip': 1})
                             continue
                         out.append({'acc': 1})
-                        if not hasattr(self, '_accepted'):
-                            self._accepted = set()
                         self._accepted.add(self.key(case))
                         break
                     if op[0] == 's':
@@ -1477,6 +1485,11 @@ class C18(Property):
 
     def oracle_mfr(self, case, obs):
         exp = mfr_expected(case)
+        if any(mfr_at(case)) and not any('acc' in o or 'exc' in o for o in obs) and len(obs) >= len(case['ops']):
+            alt = mfr_expected(case, from_start=True)
+            if alt != exp and [o['r'] for o in obs[:len(alt)]] == alt:
+                exp = alt       # the whole history read under the other reading of "its files' contents"
+                self.stats['mfr_from_start_reading'] = self.stats.get('mfr_from_start_reading', 0) + 1
         for i, op in enumerate(case['ops']):
             if i >= len(obs):
                 return Failure('mfr_missing', 'no observation for op %d %r' % (i, op))
